@@ -82,7 +82,7 @@ func runC18(c *Ctx) error {
 			cases = append(cases, cs)
 		}
 	}
-	n := c.Pick(10, 300)
+	n := c.Pick(10, 2000)
 	for i := 0; i < n; i++ {
 		cs := c18Case{Class: "random", AckErrors: c.Rng.Intn(2) == 0}
 		if c.Rng.Intn(4) == 0 {
